@@ -508,4 +508,106 @@ theorem splitOn_flatMap_append (xs : List Text) (rest : Text) (h : ∀ x ∈ xs,
     simp only [List.nil_append]
     rw [ih (fun y hy => h y (by simp [hy]))]
 
+/-! ## helpers of the property theorems and witness data -/
+
+open TrustVerif.C15.Gen
+
+theorem Cls.mem_all (a : Cls) : a ∈ Cls.all := by
+  cases a with
+  | k x => cases x <;> decide
+  | temporal => decide
+
+theorem formatLineTokensFrom_eq_render (kc : KwCase) (st : Style) (prev : Option Tok) (ts : List Tok) :
+    formatLineTokensFrom kc st (prev.map (·.kind)) ts =
+      renderFrom (fun a b => shouldGlue a.kind b.kind st) (prev.map (recaseTok kc)) (ts.map (recaseTok kc)) := by
+  induction ts generalizing prev with
+  | nil => simp [formatLineTokensFrom, renderFrom]
+  | cons t rest ih =>
+    have := ih (some t)
+    simp only [Option.map_some] at this
+    cases prev with
+    | none => simp [formatLineTokensFrom, renderFrom, sepBefore, recaseTok, this]
+    | some p => simp [formatLineTokensFrom, renderFrom, sepBefore, recaseTok, this]
+
+theorem recaseTok_cls (L : LexIface) (kc : KwCase) (t : Tok) (hv : L.valid t) : (recaseTok kc t).cls = t.cls := by
+  unfold recaseTok Tok.cls recase
+  cases kc with
+  | preserve => rfl
+  | upper =>
+    cases hk : t.isKw with
+    | false => simp
+    | true =>
+      have := L.valid_kw t hv hk
+      simp [classify, this]
+  | lower =>
+    cases hk : t.isKw with
+    | false => simp
+    | true =>
+      have := L.valid_kw t hv hk
+      simp [classify, this]
+
+theorem adjAll_of_no_hazards (L : LexIface) (kc : KwCase) (st : Style) (ts : List Tok)
+    (hv : ∀ t ∈ ts, L.valid t) (hh : lineHazards st ts = []) :
+    AdjAll (fun a b => (fun (a b : Tok) => shouldGlue a.kind b.kind st) a b = true →
+        classSafe a.cls b.cls = true) (ts.map (recaseTok kc)) := by
+  induction ts with
+  | nil => simp [AdjAll]
+  | cons a rest ih =>
+    cases rest with
+    | nil => simp [AdjAll]
+    | cons b r2 =>
+      simp only [lineHazards, List.append_eq_nil_iff] at hh
+      simp only [List.map_cons, AdjAll]
+      refine ⟨?_, ?_⟩
+      · intro hg
+        rw [recaseTok_cls L kc a (hv a (by simp)), recaseTok_cls L kc b (hv b (by simp))]
+        have hg' : shouldGlue a.kind b.kind st = true := by simpa [recaseTok] using hg
+        cases hc : classSafe a.cls b.cls with
+        | true => rfl
+        | false =>
+          have : gluedUnsafe a.cls b.cls st = true := by
+            have ka : a.cls.kind = a.kind := by
+              unfold Tok.cls classify; split <;> simp_all [Cls.kind]
+            have kb : b.cls.kind = b.kind := by
+              unfold Tok.cls classify; split <;> simp_all [Cls.kind]
+            simp [gluedUnsafe, ka, kb, hg', hc]
+          simp [this] at hh
+      · have := ih (fun t ht => hv t (by simp [ht])) hh.2
+        simpa [List.map_cons] using this
+
+theorem curIndent_aligned_nonneg (cfg : Config) (indent : Int) (toks : List Tok)
+    (hc : cfg.endStyle = .aligned) (hi : 0 ≤ indent) :
+    0 ≤ (curIndent cfg indent toks).1 ∧ (curIndent cfg indent toks).2 = false := by
+  unfold curIndent
+  split
+  · split
+    · simp only [hc]
+      exact ⟨by simp only [if_true]; omega, by simp⟩
+    · exact ⟨hi, rfl⟩
+  · exact ⟨hi, rfl⟩
+
+def tk (name : String) (kind : K) (text : String) : Tok := { name := name, kind := kind, text := text.toList }
+
+def lineOf (text : String) (toks : List Tok) : LineIn :=
+  { text := text.toList, toks := toks, inBlockComment := false, hasLineComment := false, hasPragma := false,
+    hasString := false }
+
+def cfgDefault : Config :=
+  { indentWidth := 4, insertSpaces := true, kwCase := .preserve, alignVar := true, alignAsg := true,
+    maxLen := none, style := .spaced, endStyle := .aligned }
+
+def wrapSrc : Text := txt "foo(aaaaaaaa, bbbbbbbbb, ccccccccc);\nx := 1;\n"
+
+def wrapDoc : Doc :=
+  { lines := [
+      lineOf "foo(aaaaaaaa, bbbbbbbbb, ccccccccc);"
+        [tk "Ident" .Ident "foo", tk "LParen" .LParen "(", tk "Ident" .Ident "aaaaaaaa", tk "Comma" .Comma ",",
+         tk "Ident" .Ident "bbbbbbbbb", tk "Comma" .Comma ",", tk "Ident" .Ident "ccccccccc", tk "RParen" .RParen ")",
+         tk "Semicolon" .Semicolon ";"],
+      lineOf "x := 1;"
+        [tk "Ident" .Ident "x", tk "Assign" .Assign ":=", tk "IntLiteral" .IntLiteral "1", tk "Semicolon" .Semicolon ";"],
+      lineOf "" []],
+    crlf := false, endsNl := true }
+
+
 end TrustVerif.C15
